@@ -1,6 +1,7 @@
 """C01 - Khovanov homology equals the cube-of-resolutions definition."""
 from . import common as C
 from . import kh
+from . import c01tng
 
 RULE = ("diagrams: empty link, crossingless unknot, table knots and their mirrors, Hopf link, split unions, kinked diagrams "
         "(all four Reidemeister-I kinks), a partially resolved diagram, random braid closures on 2-4 strands (relabelled, crossing "
@@ -15,10 +16,10 @@ def nontrivial(case, impl):
 
 
 def run(ctx):
-    obl = C.coq_obligations(ctx.pid, ["Extract/ExtractC01.vo"], more_props=["C01Smith"])
+    obl = C.coq_obligations(ctx.pid, ["Extract/ExtractC01.vo", c01tng.EXTRACT], more_props=["C01Smith", c01tng.PROP])
     extra = {}
     if ctx.thorough:
-        extra.update(C.coqchk(ctx.pid, more_props=["C01Smith"]))
+        extra.update(C.coqchk(ctx.pid, more_props=["C01Smith", c01tng.PROP]))
     corr = C.correspondence(ctx, "c01", nontrivial)
     # hash-order independence: a second, fresh process must print the identical implementation results
     if corr.get("ok"):
@@ -36,13 +37,25 @@ def run(ctx):
                 if x != y:
                     corr["disagreements"].append((i, cases[i], x, "SECOND-PROCESS " + y))
                     break
-    return C.finish(ctx, "other", obl, corr, RULE, extra_cov=extra, assumptions=kh.KH_ASSUME,
+    # the first layer of the v2 engine (tng.rs / path.rs / cob.rs connect): mirrored model, exact correspondence
+    obl_t, corr_t = c01tng.run_part(ctx)
+    c01tng.merge(obl, corr, obl_t, corr_t)
+    return C.finish(ctx, "other", obl, corr, RULE + " || " + c01tng.RULE, extra_cov=extra, assumptions=kh.KH_ASSUME,
                     explain=kh.EXPLAIN % "C01")
 
 
 def replay(ctx, payload):
     cases = payload.get("cases") or [payload["first"]["case"]]
-    corr = C.correspondence(ctx, "c01", nontrivial, replay_cases=cases)
+    tcases = [c for c in cases if c.split(" ", 1)[0] in c01tng.KINDS]
+    cases = [c for c in cases if c.split(" ", 1)[0] not in c01tng.KINDS]
+    corr = C.correspondence(ctx, "c01", nontrivial, replay_cases=cases) if cases else {"n": 0, "disagreements": []}
+    if tcases:
+        ct = c01tng.replay_part(ctx, tcases)
+        if ct.get("error"):
+            print(ct["error"])
+            return 2
+        corr["n"] = corr.get("n", 0) + ct["n"]
+        corr["disagreements"] = list(corr.get("disagreements", [])) + ct["disagreements"]
     if corr.get("error"):
         print(corr["error"])
         return 2
